@@ -736,3 +736,80 @@ func bitClearFact(info *types.Info, defs map[types.Object]ast.Expr, facts []cond
 	}
 	return nil, nil, false
 }
+
+// ---- constant lookup tables ----
+//
+// "Table-driven" code replaces `switch k { case K1: … V1 …; case K2: … V2 … }` by `T[k]` with a
+// package-level (or local) table `var T = map[K]V{K1: V1, K2: V2}` that is never written. constTable
+// resolves such an index expression to the list of (key constant, value expression) pairs, so a
+// rule that reads a mapping off switch arms can read it off the table in the same way.
+
+type tableEntry struct {
+	Key    types.Object // the constant used as key (nil if the key is a literal)
+	KeyVal string       // exact constant value
+	Val    ast.Expr
+}
+
+func constTable(p *Program, pk *packages.Package, e ast.Expr) (key ast.Expr, entries []tableEntry, ok bool) {
+	info := pk.TypesInfo
+	ix, isIx := ast.Unparen(e).(*ast.IndexExpr)
+	if !isIx {
+		return nil, nil, false
+	}
+	tv, isVar := usesObj(info, ix.X).(*types.Var)
+	if !isVar || tv.Pkg() != pk.Types {
+		return nil, nil, false
+	}
+	var lit *ast.CompositeLit
+	written := false
+	for _, f := range pk.Syntax {
+		ast.Inspect(f, func(n ast.Node) bool {
+			switch x := n.(type) {
+			case *ast.ValueSpec:
+				for i, nm := range x.Names {
+					if info.Defs[nm] == types.Object(tv) && i < len(x.Values) {
+						lit, _ = ast.Unparen(x.Values[i]).(*ast.CompositeLit)
+					}
+				}
+			case *ast.AssignStmt:
+				for i, l := range x.Lhs {
+					root := l
+					if lix, ok := ast.Unparen(l).(*ast.IndexExpr); ok {
+						root = lix.X
+					}
+					if o := usesObj(info, root); o == types.Object(tv) {
+						if id, isId := ast.Unparen(l).(*ast.Ident); isId && info.Defs[id] == types.Object(tv) && i < len(x.Rhs) {
+							lit, _ = ast.Unparen(x.Rhs[i]).(*ast.CompositeLit) // T := map…{…}
+						} else {
+							written = true
+						}
+					}
+				}
+			case *ast.CallExpr:
+				if b := builtinName(info, x); (b == "delete" || b == "clear") && len(x.Args) > 0 && usesObj(info, x.Args[0]) == types.Object(tv) {
+					written = true
+				}
+			case *ast.UnaryExpr:
+				if x.Op == token.AND && usesObj(info, x.X) == types.Object(tv) {
+					written = true
+				}
+			}
+			return true
+		})
+	}
+	if lit == nil || written {
+		return nil, nil, false
+	}
+	for _, el := range lit.Elts {
+		kv, isKV := el.(*ast.KeyValueExpr)
+		if !isKV {
+			return nil, nil, false
+		}
+		ktv, has := info.Types[kv.Key]
+		if !has || ktv.Value == nil {
+			return nil, nil, false
+		}
+		entries = append(entries, tableEntry{Key: usesObj(info, kv.Key), KeyVal: ktv.Value.ExactString(), Val: kv.Value})
+	}
+	return ix.Index, entries, len(entries) > 0
+}
